@@ -283,7 +283,7 @@ Proof.
     apply K; [reflexivity | reflexivity |].
     intros sid' r' c' Hne. eapply a2_fwd_del; [reflexivity|]. intros a0 Ha0 c0. rewrite H in Ha0. inversion Ha0; subst. congruence.
   - (* vacant *) tsimp. destruct O as [Icur Istr]. split.
-    + intros c id p Hlt Hcur. rewrite app_length in Hlt. cbn [length] in Hlt. autorewrite with chat in Hcur. autorewrite with chat.
+    + intros c id p Hlt Hcur. tsimp. rewrite app_length in Hlt. cbn [length] in Hlt. autorewrite with chat in Hcur. autorewrite with chat.
       destruct (Nat.eq_dec c (length (chans s))) as [->|Hne].
       * rewrite chan_at_app_new in *. unfold cursor, subscribe, with_rcv, new_chan in Hcur. cbn in Hcur.
         destruct (Nat.eqb sid id) eqn:E; [|discriminate]. apply Nat.eqb_eq in E. subst id. inversion Hcur; subst p. split; [lia|].
@@ -291,17 +291,17 @@ Proof.
       * rewrite chan_at_app_old in * by lia. destruct (Icur _ _ _ ltac:(lia) Hcur) as [Hp Ho]. split; [exact Hp|].
         destruct Ho as [Ho|(r' & Ha)]; [now left | right]. exists r'. eapply a2_fwd_put; [reflexivity | | exact Ha].
         intros a0 Ha0 c0. rewrite H in Ha0. inversion Ha0; subst. congruence.
-    + intros sid' st' Hl'. destruct (Istr _ _ Hl') as (Hc' & (p & Hp) & Hn). rewrite app_length. cbn [length]. split; [lia|]. split; [|assumption].
+    + intros sid' st' Hl'. tsimp. destruct (Istr _ _ Hl') as (Hc' & (p & Hp) & Hn). rewrite app_length. cbn [length]. split; [lia|]. split; [|assumption].
       autorewrite with chat. rewrite chan_at_app_old by assumption. eauto.
   - (* add sender *) tsimp. destruct O as [Icur Istr]. destruct (inv_a2 _ _ I sid (a_rule a) c) as (_ & _ & _ & _ & Hcur0 & Hc & _); [exists a; tauto|].
     pose proof (inv_ids _ _ I _ _ H) as Hnone. split.
-    + intros c' id p Hlt Hcur. autorewrite with chat in *. destruct (Icur _ _ _ Hlt Hcur) as [Hp Ho]. split; [exact Hp|].
+    + intros c' id p Hlt Hcur. tsimp. autorewrite with chat in *. destruct (Icur _ _ _ Hlt Hcur) as [Hp Ho]. split; [exact Hp|].
       destruct (Nat.eq_dec id sid) as [->|Hne].
       * left. eexists. rewrite lookup_put_same. split; [reflexivity|]. cbn. destruct Ho as [(st' & Hs' & _)|(r' & a' & Ha' & _ & Hp')]; [congruence|].
         rewrite H in Ha'. inversion Ha'; subst. congruence.
       * destruct Ho as [(st' & Hs' & Hc')|(r' & Ha)]; [left; exists st'; now rewrite lookup_put_other | right]. exists r'.
         eapply a2_fwd_del; [reflexivity | | exact Ha]. intros a0 Ha0 c0 Hpc. apply Hne. eapply (inv_a2_uniq _ _ I); [exact Ha | exists a0; eauto].
-    + intros sid' st' Hl'. autorewrite with chat. destruct (Nat.eq_dec sid' sid) as [->|Hne].
+    + intros sid' st' Hl'. tsimp. autorewrite with chat. destruct (Nat.eq_dec sid' sid) as [->|Hne].
       * rewrite lookup_put_same in Hl'. inversion Hl'; subst st'. cbn. split; [lia|]. split; [eauto | discriminate].
       * rewrite lookup_put_other in Hl' by assumption. exact (Istr _ _ Hl').
   - (* unfiltered *) apply fresh_spec in H. destruct H as (Hn1 & Hn2 & _).
@@ -314,7 +314,7 @@ Proof.
     apply K; [reflexivity | reflexivity |]. intros sid' r' c' _. tauto.
   - (* poll *) destruct H as [Hl Hd]. apply try_recv_got in H0. destruct H0 as (p0 & Hc0 & Hn0 & Hlog & Hcl & Hci & Hco). tsimp.
     destruct O as [Icur Istr]. destruct (Istr _ _ Hl) as (Hc & _ & Hnone). split.
-    + intros c id p Hlt Hcur. rewrite chans_set_chan, length_upd in Hlt. autorewrite with chat in *. destruct (Nat.eq_dec c (s_ch st)) as [->|Hne].
+    + intros c id p Hlt Hcur. tsimp. rewrite chans_set_chan, length_upd in Hlt. autorewrite with chat in *. destruct (Nat.eq_dec c (s_ch st)) as [->|Hne].
       * rewrite chan_at_set_same in * by assumption. unfold tail. rewrite Hlog. destruct (Nat.eq_dec id sid) as [->|Hid].
         -- rewrite Hci in Hcur. inversion Hcur; subst p. assert (p0 < length (log (chan_at s (s_ch st)))) by (apply nth_error_Some; congruence).
            split; [lia|]. left. eexists. rewrite lookup_put_same. split; reflexivity.
@@ -323,7 +323,7 @@ Proof.
       * rewrite chan_at_set_other in * by assumption. destruct (Icur _ _ _ Hlt Hcur) as [Hp Ho]. split; [exact Hp|].
         destruct Ho as [(st' & Hs' & Hc')|Ho]; [left | now right]. exists st'. split; [|assumption]. rewrite lookup_put_other; [assumption|].
         intros ->. rewrite Hl in Hs'. inversion Hs'; subst. congruence.
-    + intros sid' st' Hl'. rewrite chans_set_chan, length_upd. autorewrite with chat. destruct (Nat.eq_dec sid' sid) as [->|Hne].
+    + intros sid' st' Hl'. tsimp. rewrite chans_set_chan, length_upd. autorewrite with chat. destruct (Nat.eq_dec sid' sid) as [->|Hne].
       * rewrite lookup_put_same in Hl'. inversion Hl'; subst st'. cbn. split; [assumption|]. split; [|assumption].
         rewrite chan_at_set_same by assumption. eauto.
       * rewrite lookup_put_other in Hl' by assumption. destruct (Istr _ _ Hl') as (Hc' & (p & Hp) & Hn). split; [assumption|]. split; [|assumption].
